@@ -30,8 +30,8 @@ pub fn def() -> CheckDef {
     CheckDef {
         id: "C11",
         level: "fault_enumeration",
-        runs_quick: 150_000,
-        runs_thorough: 3_000_000,
+        runs_quick: 800_000,
+        runs_thorough: 25_000_000,
         rule: "keystream-exhaustion fault: every one of the seven limited stream ciphers (six CTR flavours, BeltCtr) is placed d in 0..6 blocks before its limit at every kind of in-block offset, by seek or by core positioning, and driven across the limit with try_apply_keystream (4 checked forms; lengths 0..(d+2) blocks incl. exactly-at-limit and one-byte-too-long), try_seek around the limit, try_current_pos, remaining_blocks, clone. evaluations = scenarios; fault = a request that does not fit. distinct = distinct (type, block size, cipher, policy, d, offset class, op/outcome sequence); non-trivial = >= 1 request that crosses or touches the limit",
         required_probes: &["request_ends_exactly_at_limit", "request_one_byte_too_long", "failure_with_half_used_block", "limit_128bit", "limit_belt", "seek_exactly_to_limit", "seek_beyond_limit_rejected", "remaining_some_checked", "placed_by_seek", "placed_by_core", "placed_mid_stream"],
         r#gen,
